@@ -13,8 +13,10 @@ from . import common
 ID = "C11"
 LEVEL = "fault_enumeration"
 BUDGET_S = {"quick": 0, "thorough": 600}
-RULE = ("case = one history write* ; F1..Fm. All finalisation sequences over {close(), exit, exit with an Exception in "
-        "flight, exit with a non-Exception BaseException in flight} with m <= 4 (quick; 34 sequences) or m <= 6 (thorough; 69), an exit needing a prior enter and occurring at "
+RULE = ("case = one history write* ; F1..Fm. All finalisation sequences over {close(), leaving the with-block entered "
+        "before the writes, a with-block entered on the used writer and left} - each way of leaving being normal, with an "
+        "Exception in flight or with a non-Exception BaseException in flight (rotated) - with m <= 4 (quick; 124 sequences; real-file storages run every third) "
+        "or m <= 5 (thorough; 236), an exit needing a prior enter and occurring at "
         "most once, crossed with "
         "writer type {VbsWriter, IpmWriter} x {VBS, 1014} x storage {SimFile, BytesIO, real file 'wb', real file 'w+b'} "
         "x seeded record lists (0..8 records, block-edge lengths) / message lists. distinct = distinct (writer, blocked, "
@@ -33,26 +35,62 @@ STORAGES = ["sim", "bytesio", "realfile", "realfile+", "realfile_ab", "realfile_
 CROWDS = [1, 5, 127, 128, 129, 300, 1100]
 
 
+EXITS = ("exit", "exit!", "exit!!")
+WITHS = ("with", "with!", "with!!")
+
+
 def fin_sequences(mmax):
-    """all sequences of 1..mmax finalisations; the context manager is left at most once, either normally
-    ('exit') or with an exception in flight because the with-body raised ('exit!')"""
+    """all sequences of 1..mmax finalisations over
+         close                      explicit close()
+         exit / exit! / exit!!      leaving the with-block that was entered BEFORE the writes (at most once):
+                                    normally, with an Exception in flight, with a non-Exception BaseException
+         with / with! / with!!      a with-block entered on the (already used) writer at this point and left
+                                    (`w.close(); with w: pass`, two successive with-blocks, ...)
+    The three ways of leaving are rotated over the positions instead of multiplied."""
     out = []
     for m in range(1, mmax + 1):
-        out.append(["close"] * m)
-        for i in range(m):
-            for x in ("exit", "exit!", "exit!!"):
-                s = ["close"] * m
-                s[i] = x
+        for mask in range(2 ** m):                       # close / with-block at every position
+            base = [("w" if mask >> i & 1 else "c") for i in range(m)]
+            out.append(base)
+            for i in range(m):                           # ... and the initial block's exit at one position
+                s = list(base)
+                s[i] = "e"
                 out.append(s)
-    return out
+    seqs = []
+    for n, base in enumerate(out):
+        seq = []
+        for i, t in enumerate(base):
+            if t == "c":
+                seq.append("close")
+            elif t == "e":
+                seq.append(EXITS[(n + i) % 3])
+            else:
+                seq.append(WITHS[(n + i) % 3])
+        if seq not in seqs:
+            seqs.append(seq)
+    return seqs
+
+
+def expand_ops(seq, writes):
+    """writer_ops for a finalisation sequence"""
+    ops = (["enter"] if any(x in EXITS for x in seq) else []) + list(writes)
+    for t in seq:
+        if t in WITHS:
+            ops += ["enter", EXITS[WITHS.index(t)]]
+        else:
+            ops.append(t)
+    return ops
 
 
 def judge(scn, log=None):
     items = pipeline.scenario_items(scn)
     wr = pipeline.write_phase(scn, log=log, items=items)
     tag = f"{scn['level']}|blk={int(scn['blocked'])}"
-    allf = [o for o in scn["writer_ops"] if o in ("close", "exit", "exit!", "exit!!") or o.startswith("crowd:")]
-    fins = [o for o in allf if not o.startswith("crowd:")]  # close / exit / exit!
+    wops = scn["writer_ops"]
+    first_fin = next((i for i, o in enumerate(wops) if o == "close" or o.startswith("exit") or o.startswith("crowd:")), len(wops))
+    allf = [o for i, o in enumerate(wops) if o in ("close", "exit", "exit!", "exit!!") or o.startswith("crowd:")
+            or (o == "enter" and i > first_fin)]
+    fins = [o for o in allf if o == "close" or o.startswith("exit")]
     fails = []
     if wr.error:
         # a write op raising on a well-formed item is C03 / C06's business; nothing to judge here
@@ -129,9 +167,9 @@ def build(level, blocked, storage, lst, seq, many=False):
     writes = [f"write:{i}" for i in range(n)]
     if many and n:
         writes = [f"write_many:0:{n}"]
-    ops = (["enter"] if any(x.startswith("exit") for x in seq) else []) + writes + list(seq)
     # (a "crowd:K" entry between finalisations creates, writes and finalises K other writers)
-    scn["writer_ops"] = ops
+    scn["writer_ops"] = expand_ops(seq, writes)
+    scn["fin_tokens"] = list(seq)
     return scn
 
 
@@ -139,7 +177,7 @@ def plan(tier, seed, wave):
     if wave > 0:
         return []  # the enumeration is finite; one wave covers it
     tasks = []
-    mmax = 4 if tier == "quick" else 6
+    mmax = 4 if tier == "quick" else 5
     for level in ("vbs", "ipm"):
         for blocked in (False, True):
             for storage in STORAGES:
@@ -154,7 +192,9 @@ def run_task(task):
     lists = vbs if task["level"] == "vbs" else ipm
     c = part["counters"]
     for li, lst in enumerate(lists):
-        for seq in fin_sequences(task["mmax"]):
+        for si, seq in enumerate(fin_sequences(task["mmax"])):
+            if task["tier"] == "quick" and task["storage"].startswith("realfile") and (si + li) % 3:
+                continue
             scn = build(task["level"], task["blocked"], task["storage"], lst, seq, many=(li % 3 == 2))
             want_log = task["storage"] == "sim" and li < 2
             log = EventLog() if want_log else None
@@ -234,12 +274,13 @@ def minimise(scn, oracle):
             return False
 
     key = "records" if scn["level"] == "vbs" else "messages"
-    fins = [o for o in scn["writer_ops"] if o in ("close", "exit", "exit!", "exit!!") or o.startswith("crowd:")]
+    fins = list(scn.get("fin_tokens") or [o for o in scn["writer_ops"] if o in ("close",) + EXITS or o.startswith("crowd:")])
 
     def rebuild(items, fins, base):
         c = dict(base)
         c[key] = items
-        c["writer_ops"] = (["enter"] if any(x.startswith("exit") for x in fins) else []) + [f"write:{i}" for i in range(len(items))] + fins
+        c["writer_ops"] = expand_ops(fins, [f"write:{i}" for i in range(len(items))])
+        c["fin_tokens"] = list(fins)
         return c
 
     cur = dict(scn)
